@@ -29,6 +29,11 @@ VARIANTS = {
 }
 
 
+import threading
+_TLOCK = threading.RLock()
+_DEPTH = [0]
+
+
 class BuildError(Exception):
     pass
 
@@ -121,9 +126,18 @@ class Build:
                 shutil.rmtree(d, ignore_errors=True)
 
     class _L:
+        # flock excludes other processes, the RLock other threads of this process (they share the open file description)
         def __init__(s, f): s.f = f
-        def __enter__(s): fcntl.flock(s.f, fcntl.LOCK_EX)
-        def __exit__(s, *a): fcntl.flock(s.f, fcntl.LOCK_UN)
+        def __enter__(s):
+            _TLOCK.acquire()
+            _DEPTH[0] += 1
+            if _DEPTH[0] == 1:
+                fcntl.flock(s.f, fcntl.LOCK_EX)
+        def __exit__(s, *a):
+            _DEPTH[0] -= 1
+            if _DEPTH[0] == 0:
+                fcntl.flock(s.f, fcntl.LOCK_UN)
+            _TLOCK.release()
 
     def _lock(self):
         return Build._L(self._lockf)
@@ -201,6 +215,29 @@ class Build:
             self.log("%s built in %.1fs" % (tag, time.time() - t0))
         return out
 
+    def lib_renamed(self, cfg):
+        """plain library whose writable static storage lives in named sections (xrl_data, xrl_bss, ... / xrl_tab... for the table
+        object), so that a harness can hash it between calls through the linker's __start_/__stop_ symbols (C16)"""
+        src = self.lib("plain", cfg)
+        out = os.path.join(self.dir, "libxrl_pure_%s.a" % cfg)
+        with self._lock():
+            if self._done("lib_pure_" + cfg):
+                return out
+            odir = os.path.join(self.dir, "obj_pure_" + cfg)
+            shutil.rmtree(odir, ignore_errors=True); os.makedirs(odir)
+            objs = []
+            for s_ in self.src["libxrl"] + ["xrayglob_inline_%s.c" % cfg]:
+                o = os.path.join(self.dir, "obj_plain", s_.replace(".c", ".o"))
+                d = os.path.join(odir, os.path.basename(o)); objs.append(d)
+                tab = s_.startswith("xrayglob_inline_")
+                pre = "xrl_t" if tab else "xrl_l"
+                run(["objcopy", "--rename-section", ".data=%sdata" % pre, "--rename-section", ".bss=%sbss" % pre,
+                     "--rename-section", ".data.rel.local=%sdrl" % pre, "--rename-section", ".data.rel.ro.local=%sdrol" % pre,
+                     "--rename-section", ".data.rel=%sdr" % pre, "--rename-section", ".data.rel.ro=%sdro" % pre, o, d])
+            run(["ar", "rcs", out] + objs)
+            self._mark("lib_pure_" + cfg)
+        return out
+
     def shared(self, cfg="A"):
         """shared object with the same visibility flags meson uses (for C20: exports)."""
         self.base()
@@ -220,14 +257,14 @@ class Build:
             self._mark("shared_" + cfg)
         return out
 
-    def exe(self, name, sources, variant, cfg, extra=(), libs=(), cxx=False, extra_objs=()):
+    def exe(self, name, sources, variant, cfg, extra=(), libs=(), cxx=False, extra_objs=(), renamed=False):
         """compile harness sources against a library variant; returns the executable path."""
-        lib = self.lib(variant, cfg)
+        lib = self.lib_renamed(cfg) if renamed else self.lib(variant, cfg)
         V = VARIANTS[variant]
         h = hashlib.sha256()
         for s in sources:
             h.update(open(s, "rb").read())
-        h.update(repr((variant, cfg, tuple(extra), tuple(libs), cxx)).encode())
+        h.update(repr((variant, cfg, tuple(extra), tuple(libs), cxx, renamed)).encode())
         out = os.path.join(self.dir, "%s_%s_%s_%s" % (name, variant, cfg, h.hexdigest()[:10]))
         with self._lock():
             if os.path.exists(out):
